@@ -38,6 +38,7 @@ pub fn analyze_trait(item_trait: syn::ItemTrait) -> syn::Result<OutTrait> {
                     entrait_sig,
                     originally_async,
                     default_body: method.default,
+                    fn_generic_arguments: None,
                 });
             }
             syn::TraitItem::Type(ty) => {
